@@ -127,6 +127,11 @@ pub struct World {
     /// the history stopped being recorded (see emit_with)
     pub stopped: bool,
     pub stop_reason: Option<String>,
+    /// C13: request and judge block templates at many moments
+    pub probe_templates: bool,
+    pub probe_budget: usize,
+    pub n_templates: u64,
+    pub probe_rng: Rng,
 }
 
 fn lock_variant(v: u8) -> ckb_types::packed::Script {
@@ -166,7 +171,7 @@ impl World {
         let mut w = World {
             scn: scn.clone(), c, node, prefix: prefix.to_string(), outs, txs: vec![], tx_by_hash: HashMap::new(), tx_by_short: HashMap::new(),
             blocks: vec![], blk_by_hash: HashMap::new(), chain: vec![], events: vec![], now: ckb_systemtime::unix_time_as_millis(),
-            last_dump: None, salt: 0, expiry_ms: HOUR_MS, tmp_before, pool_names: vec![], stopped: false, stop_reason: None,
+            last_dump: None, salt: 0, expiry_ms: HOUR_MS, tmp_before, pool_names: vec![], stopped: false, stop_reason: None, probe_templates: false, probe_budget: 0, n_templates: 0, probe_rng: Rng::new(77),
         };
         w.events.push(json!({"ev": "Reset", "conf": w.conf_json()}));
         w
@@ -415,6 +420,10 @@ impl World {
                         if self.txs[gi].ins.iter().any(|i| self.txs[ri].ins.contains(i)) {
                             replaced = true;
                         }
+                        // ... or evicted a cell-ref parent to get under the ancestor limit
+                        if self.txs[gi].deps.iter().any(|i| self.txs[ri].ins.contains(i)) {
+                            replaced = true;
+                        }
                     }
                 }
             }
@@ -439,6 +448,75 @@ impl World {
             }
         }
         self.events.push(v);
+        if self.probe_templates && self.probe_rng.chance(1, 3) {
+            self.probe_template("after-operation", true);
+        }
+    }
+
+    /// C13: take the template the node hands out right now, seal it unchanged, and let a judge node that holds exactly
+    /// the chain up to the template's parent verify it.  Recorded as a `Template` event.
+    pub fn probe_template(&mut self, moment: &str, may_settle: bool) {
+        if !self.probe_templates || self.probe_budget == 0 || self.stopped {
+            return;
+        }
+        let get = |w: &World| w.node.shared.get_block_template(None, None, None).ok().and_then(|r| r.ok());
+        let Some(t1) = get(self) else { return };
+        stage(&format!("template probe {}", moment));
+        // settled = the pool did not change and the assembler hands out the same template again
+        let mut settled = false;
+        if may_settle {
+            let names_before = self.pool_names.clone();
+            let now: Vec<String> = { let o = self.observe(); o["st"].as_object().unwrap().keys().cloned().collect() };
+            let same_pool = { let mut a = names_before.clone(); a.sort(); let mut b = now.clone(); b.sort(); a == b };
+            if let Some(t2) = get(self) {
+                settled = same_pool && t2.work_id == t1.work_id && t2.parent_hash == t1.parent_hash && t2.transactions.len() == t1.transactions.len() && t2.proposals.len() == t1.proposals.len();
+            }
+        }
+        let parent: Byte32 = t1.parent_hash.clone().into();
+        let block: ckb_types::packed::Block = t1.into();
+        let blk = block.as_advanced_builder().build();
+        // chain from genesis to the parent
+        let mut path = vec![];
+        let mut cur = self.blk_by_hash.get(&parent).copied();
+        if cur.is_none() && parent != self.c.genesis_hash() {
+            self.events.push(json!({"ev": "Template", "moment": moment, "parent": "?", "txs": [], "props": [], "judge": "unknown-parent", "bytes": 0, "cycles": 0,
+                "maxBytes": 0, "maxCycles": 0, "maxProps": 0, "settled": false, "bad": ["template-on-unknown-parent"]}));
+            return;
+        }
+        while let Some(i) = cur {
+            path.push(self.blocks[i].view.clone());
+            cur = self.blocks[i].parent;
+        }
+        path.reverse();
+        self.probe_budget -= 1;
+        self.n_templates += 1;
+        let tmp_before = tmp_listing();
+        let judge = builder_node(&self.c, &path);
+        let verdict = match judge.submit_like_miner(&blk) {
+            Ok(true) => "ok".to_string(),
+            Ok(false) => "not-new".to_string(),
+            Err(e) => format!("err: {}", e.chars().take(160).collect::<String>()),
+        };
+        let on_tip = judge.tip().1 == blk.hash();
+        if drop_bounded(judge) {
+            tmp_sweep(&tmp_before);
+        }
+        let mut bad: Vec<String> = vec![];
+        let mut txs = vec![];
+        let mut cycles = 0u64;
+        for t in blk.transactions().iter().skip(1) {
+            match self.tx_by_hash.get(&t.hash()) {
+                Some(&i) => { txs.push(self.txs[i].name.clone()); cycles += self.txs[i].cycles; }
+                None => bad.push(format!("template-tx-unknown:{:x}", t.hash())),
+            }
+        }
+        let props: Vec<String> = blk.data().proposals().into_iter().map(|id| self.tx_by_short.get(&id).map(|&i| self.txs[i].name.clone()).unwrap_or("?".into())).collect();
+        let pname = if parent == self.c.genesis_hash() { "genesis".to_string() } else { self.blocks[self.blk_by_hash[&parent]].name.clone() };
+        let verdict = if verdict == "ok" && !on_tip { "accepted-but-not-tip".to_string() } else { verdict };
+        self.events.push(json!({"ev": "Template", "moment": moment, "parent": pname, "txs": txs, "props": props, "uncles": blk.uncles().data().len(),
+            "judge": verdict, "bytes": blk.data().serialized_size_without_uncle_proposals(), "cycles": cycles,
+            "maxBytes": self.c.max_block_bytes(), "maxCycles": self.c.max_block_cycles(), "maxProps": self.c.max_block_proposals_limit(),
+            "settled": settled, "bad": bad}));
     }
 
     pub fn pooled(&self) -> Vec<usize> {
@@ -552,6 +630,10 @@ impl World {
         let r = self.node.process(b);
         if let Err(e) = &r {
             return Err(format!("block rejected: {}", e));
+        }
+        // C13: the chain has the block, the pool may not have processed the notification yet
+        if self.probe_templates && self.probe_rng.chance(1, 2) {
+            self.probe_template("after-block-before-pool-sync", false);
         }
         self.sync_chain(exp)
     }
